@@ -396,6 +396,11 @@ func init() {
 			return "", err
 		}
 		sb.WriteString(plan)
+		rplan, err := c08ReplicaPlan(replica)
+		if err != nil {
+			return "", err
+		}
+		sb.WriteString(rplan)
 		return sb.String(), nil
 	}})
 }
